@@ -681,3 +681,15 @@ def r3_7(run):
 
 
 RULES.append(("R3.7", r3_7))
+
+
+def r3_8(run):
+    """"every connected in-service sink, source and mass storage reports its mass flow" and every active controller its set-point:
+    what counts as connected is decided by the connectivity search, whose inputs are part of the clause -- which branches establish
+    connectivity, in which direction (DIRECTED is written by the pressure controller only), which nodes are slacks.  Shared with C04
+    R4.5."""
+    from .c04 import r4_5
+    r4_5(run)
+
+
+RULES.append(("R3.8", r3_8))
